@@ -311,7 +311,12 @@ func validateMutationAtomic(atype string, mutator Mutator, value interface{}) er
 		}
 	case TypeInteger:
 		switch mutator {
-		case MutateOperationAdd, MutateOperationSubtract, MutateOperationMultiply, MutateOperationDivide, MutateOperationModulo:
+		case MutateOperationDivide, MutateOperationModulo:
+			if value.(int) == 0 {
+				return &DomainError{details: "Division by zero."}
+			}
+			return nil
+		case MutateOperationAdd, MutateOperationSubtract, MutateOperationMultiply:
 			return nil
 		default:
 			return fmt.Errorf("wrong mutator for integer type: %s", mutator)
